@@ -8,6 +8,10 @@
 (*                 M = A B with A (n x r) and B (r x p) small-integer tables given by closed formulas, rows    *)
 (*                 repeated with period `rep` (duplicate rows); the exact rank is NOT taken from r: it is       *)
 (*                 computed by the same rational elimination as for every other kind                          *)
+(*   kind "multi" : rank-deficient integer X = A B (A, B over {-1,0,1}, inner rank 2..3, shapes 4x3, 5x3, 6x4) with a pseudo-random      *)
+(*                 integer response BLOCK Y (2..3 columns over -2..2), tables driven by Seed.  PLS with more latent variables than the     *)
+(*                 rank builds the surplus ones on rounding residue; a few percent of these inputs run into the pass ceiling of LVCalc      *)
+(*                 with an ALTERNATING convergence value (the class of seeded change C18-adv4; measured: 3.5 - 4 % of such inputs).         *)
 (*   kind "prodresp" : the same with a two-valued response (rows <= ProdRespRows so that the Krylov numbers    *)
 (*                 stay inside TLC's integers)                                                              *)
 (* Shapes with more than FullCells cells are sampled deterministically when SampleMod > 1 (cell index mod  *)
@@ -17,7 +21,8 @@
 EXTENDS ExactRank, TLC, Json
 CONSTANTS MaxR, MaxC, FullCells, SampleMod, SampleRes, Ex, Kinds,
           YNorm,     \* TRUE: only responses with y[1] = 0 (y and 1 - y have the same centred direction up to sign)
-          ProdTier   \* "none" | "quick" | "thorough": which list of larger shapes the kinds "prod" / "prodresp" run through
+          ProdTier,  \* "none" | "quick" | "thorough": which list of larger shapes the kinds "prod" / "prodresp" run through
+          Seed       \* 0..9972, from the check's seed: drives the pseudo-random tables of kind "multi"
 
 Vals == {-1, 0, 1}
 RECURSIVE Pow(_, _)
@@ -48,6 +53,18 @@ ProdMat(n, p, r, s, rep) == [i \in 1..n |-> [j \in 1..p |-> ProdCell(i, j, r, s,
 ProdY(n, s) == [i \in 1..n |-> IF s % 4 = 3 THEN 1 ELSE (i \div (1 + (s % 3))) % 2]      \* s % 4 = 3: a constant response
 Min2(u, v) == IF u < v THEN u ELSE v
 
+\* ---- pseudo-random small-integer tables (kind "multi"); every intermediate stays far inside 32 bits
+Hash(a, b, c) == (a * 7919 + b * 3571 + c * 1223 + 101) % 65521
+Mix(x) == ((x % 4093) * 3301 + (x \div 4093) * 2749 + 977) % 65521
+RCell(cse, pos, m) == (Mix(Hash(Seed, cse, pos)) % (2 * m + 1)) - m
+MultiShapes == {<<5, 3, 2, 2>>, <<5, 3, 2, 3>>, <<4, 3, 2, 2>>, <<6, 4, 2, 3>>, <<6, 4, 3, 2>>}      \* objects, columns, inner rank, responses
+MultiCount == CASE ProdTier = "quick" -> 80 [] ProdTier = "thorough" -> 400 [] OTHER -> 0
+MultiCase(sh, c) == c + 1000 * (sh[1] * 7 + sh[2] * 3 + sh[3] + sh[4] * 11)
+RECURSIVE MultiCell(_, _, _, _)
+MultiCell(cse, i, j, k) == IF k = 0 THEN 0 ELSE RCell(cse, 100 + 10 * i + k, 1) * RCell(cse, 200 + 10 * k + j, 1) + MultiCell(cse, i, j, k - 1)
+MultiX(sh, cse) == [i \in 1..sh[1] |-> [j \in 1..sh[2] |-> MultiCell(cse, i, j, sh[3])]]
+MultiY(sh, cse) == [i \in 1..sh[1] |-> [j \in 1..sh[4] |-> RCell(cse, 300 + 10 * i + j, 2)]]
+
 VARIABLES kind, M, y, ex
 vars == <<kind, M, y, ex>>
 Perturb(B, i, j) == [a \in 1..Len(B) |-> [b \in 1..Len(B[1]) |-> Pow(2, Ex) * B[a][b] + (IF a = i /\ b = j THEN 1 ELSE 0)]]
@@ -63,13 +80,16 @@ InitProd == \E sh \in ProdShapes : \E r \in 0..Min2(3, Min2(sh[1], sh[2])) : \E 
           /\ M = ProdMat(sh[1], sh[2], r, s, rep)
           /\ \/ kind = "prod" /\ y = <<>>
              \/ kind = "prodresp" /\ sh[1] \in 2..ProdRespRows /\ y = ProdY(sh[1], s + r)
-Init == InitSmall \/ InitProd
+InitMulti == \E sh \in MultiShapes : \E c \in 0..(MultiCount - 1) :
+          kind = "multi" /\ ex = 0 /\ M = MultiX(sh, MultiCase(sh, c)) /\ y = MultiY(sh, MultiCase(sh, c))       \* y is a MATRIX here (rows of the response block)
+Init == InitSmall \/ InitProd \/ InitMulti
 Next == UNCHANGED vars
 Spec == Init /\ [][Next]_vars
 
 B2I(b) == IF b THEN 1 ELSE 0
 HasY == kind \in {"resp", "prodresp"}
-IsProd == kind \in {"prod", "prodresp"}
+IsProd == kind \in {"prod", "prodresp", "multi"}
+YCol(k) == [i \in 1..Len(M) |-> y[i][k]]
 \* The rows of the mean-centred matrix and the differences M[i] - M[1] span the same space (each centred row is an average of
 \* differences, each difference is a difference of centred rows): same rank, but the entries stay as small as those of M, which keeps
 \* the elimination of a 33 x 3 or 65 x 4 matrix inside TLC's 32-bit integers (CenterN multiplies everything by n first).
@@ -98,6 +118,7 @@ CaseRec == [kind |-> kind, nr |-> Len(M), nc |-> Len(M[1]), cells |-> M, ex |-> 
             dr |-> B2I(DupRow), dc |-> B2I(DupCol),
             cov |-> IF HasY THEN B2I(CovNonZero(M, y)) ELSE 0,
             krank |-> IF HasY THEN KRank ELSE 0,
+            ycov |-> IF kind = "multi" THEN [k \in 1..Len(y[1]) |-> B2I(CovNonZero(M, YCol(k)))] ELSE <<>>,      \* per response column: X_c'y_c # 0
             ycst |-> B2I(YConst)]
 Emit == PrintT("@@" \o ToJson(CaseRec))
 \* theorems evaluated on every generated case (the exact-rank module checks itself)
